@@ -4,6 +4,7 @@ import (
 	"go/ast"
 	"go/token"
 	"go/types"
+	"reflect"
 )
 
 // fieldInfo holds information about a struct field for code generation.
@@ -32,8 +33,14 @@ func (t *Transformer) transformStruct(ws *WireStruct, pkg *types.Package) *Kesso
 
 	// Collect fields to include (skip unexported fields from external packages)
 	var fieldInfos []fieldInfo
-	for field := range st.Fields() {
-		if ws.Fields[0] == "*" || contains(ws.Fields, field.Name()) {
+	allFields := len(ws.Fields) > 0 && ws.Fields[0] == "*"
+	for i := range st.NumFields() {
+		field := st.Field(i)
+		// wire does not fill fields tagged `wire:"-"` when "*" is given
+		if allFields && reflect.StructTag(st.Tag(i)).Get("wire") == "-" {
+			continue
+		}
+		if allFields || contains(ws.Fields, field.Name()) {
 			// Skip unexported fields from external packages
 			if isExternalPkg && !field.Exported() {
 				continue
